@@ -135,12 +135,23 @@ pub fn emit(seed: u64, n: usize, lo: i64, hi: i64, max_n: usize) {
                             26.104698374152342, 1.4516219416302045, 27.556320315782546, 1.4516219416302045, 27.556320315782546, 0.0, 22.556320315782546, 0.0];
                 name = "known_finding_witness_chamfer_reversed".to_string();
             }
-            // the first two sweeps of every run follow an L-shaped path (a long leg, then a shorter one at a right angle, in the
-            // plane and out of it): the last chord is perpendicular to the overall displacement, so an end cap projected along
-            // anything but the last chord's own direction collapses
-            if *op == 404 && count < 2 * ops.len() {
-                let pl = args[2] as usize; let prof: Vec<f64> = args[4..4 + 2 * pl].to_vec();
-                let path: [f64; 9] = if count < ops.len() { [0.0, 0.0, 0.0, 30.0, 0.0, 0.0, 30.0, 10.0, 0.0] } else { [0.0, 0.0, 0.0, -30.0, 0.0, 0.0, -30.0, 0.0, 10.0] };
+            // the first twelve sweeps of every run follow an L-shaped path (a long leg, then a shorter one at a right angle) ending
+            // towards +X, -X, +Y, -Y, +Z, -Z in turn, each direction once with a fixed and once with the generated profile: every branch of the end cap's projection choice is taken, and the last chord
+            // is perpendicular to the overall displacement, so a cap projected along anything but its own direction collapses
+            if *op == 404 && count < 12 * ops.len() {
+                // odd ones keep the generated profile, even ones use a fixed concave outline in general position (clockwise, no three
+                // vertices anywhere near a common line), so that an open cap cannot be put down to the near-collinear finding
+                let k = count / ops.len();
+                let (pl, prof): (usize, Vec<f64>) = if k % 2 == 1 { let pl = args[2] as usize; (pl, args[4..4 + 2 * pl].to_vec()) }
+                    else { (5, vec![0.3, 3.1, 2.2, 0.9, 4.1, 2.6, 2.9, -2.3, -1.4, -1.7]) };
+                let (first, last): ([f64; 3], [f64; 3]) = match k {
+                    0 => ([0.0, 30.0, 0.0], [10.0, 0.0, 0.0]), 1 => ([0.0, 0.0, 30.0], [-10.0, 0.0, 0.0]),
+                    2 => ([30.0, 0.0, 0.0], [0.0, 10.0, 0.0]), 3 => ([30.0, 0.0, 0.0], [0.0, -10.0, 0.0]),
+                    4 => ([-30.0, 0.0, 0.0], [0.0, 0.0, 10.0]), 5 => ([0.0, -30.0, 0.0], [0.0, 0.0, -10.0]),
+                    6 => ([0.0, 0.0, 30.0], [-10.0, 0.0, 0.0]), 7 => ([0.0, 30.0, 0.0], [10.0, 0.0, 0.0]),
+                    8 => ([30.0, 0.0, 0.0], [0.0, -10.0, 0.0]), 9 => ([30.0, 0.0, 0.0], [0.0, 10.0, 0.0]),
+                    10 => ([0.0, -30.0, 0.0], [0.0, 0.0, -10.0]), _ => ([-30.0, 0.0, 0.0], [0.0, 0.0, 10.0]) };
+                let path = [0.0, 0.0, 0.0, first[0], first[1], first[2], first[0] + last[0], first[1] + last[1], first[2] + last[2]];
                 let mut v = vec![args[0], 0.0, pl as f64, 3.0]; v.extend(prof); v.extend(path); args = v;
                 name = format!("{} on an L-shaped path", name);
             }
